@@ -56,6 +56,7 @@ def run(ctx) -> None:
         gr.siblings(Px(), a, w, "x")
     ctx.section("vector", sib)
     ctx.section("guards", gr.key_length_guards, ctx, a, "f.guards")
+    ctx.section("extreme", _extreme_helper, ctx)
     ctx.section("names", nameres.check, ctx, "g.name-resolution")
 
     def det():
@@ -73,16 +74,48 @@ def run(ctx) -> None:
     ctx.not_decided += ["numeric results", "hash/equality behaviour of exotic keys (nan, 1 == 1.0 == True merging groups)"]
 
 
+def _extreme_helper(ctx) -> None:
+    """min / max go through vector._extreme(values, pick) (vocabulary of the aggregator facts): it returns pick(values), and - only in
+    the handler of a TypeError (dates next to datetimes) - pick(values, key=_at_midnight): the builtin itself, never another value."""
+    from ..symx import Interp as _SI
+    from ..symx import kw, show
+    prog = ctx.prog
+    f = prog.functions.get("vector._extreme")
+    if f is None:
+        return
+    it = _SI(prog, f)
+    V, P = ("param", f.params[0]), ("param", f.params[1])
+    rets = [e for e in it.events if e.kind == "return" and e.depth == 0]
+    probs = []
+    plain = [e for e in rets if e.term == ("call", P, (V,), ())]
+    if not plain:
+        probs.append("no `return pick(values)`")
+    for e in rets:
+        if e in plain:
+            continue
+        in_handler = any(pol and c[0] == "call" and c[1] == ("name", "<except>") and c[2] and c[2][0] == ("name", "TypeError") for c, pol in e.conds)
+        ok = e.term[0] == "call" and e.term[1] == P and e.term[2] == (V,) and kw(e.term, "key") == ("name", "_at_midnight") and len(e.term[3]) == 1
+        if not (in_handler and ok):
+            probs.append(f"`return {show(e.term, it)[:50]}` is neither pick(values) nor, in the TypeError handler, pick(values, key=_at_midnight)")
+    if it.falls_through:
+        probs.append("can fall off its end (returning None for a non-empty group)")
+    ctx.ob("c.aggregators", f, "extreme-helper", not probs, "_extreme(values, pick) is pick(values), dates widened to midnight on a TypeError",
+           f.node, message="vector._extreme: " + "; ".join(probs[:2]))
+
+
 _T, _V = "table", "vector"
 MUTANTS = [
     dict(id="aggregate-stdev-squares-with-pow", module="table",
          old="					variance = sum((v - mean_val) * (v - mean_val) for v in clean) / (n - 1)",
          new="					variance = sum((v - mean_val) ** 2 for v in clean) / (n - 1)", rules=["e.vector-reductions"],
          desc="the defect repaired by fix ea0e8c4: d ** 2 and d * d differ in the last bit for some floats"),
+    dict(id="extreme-swallows-type-error", module=_V, old="		return pick(values, key=_at_midnight)", new="		return None", rules=["c.aggregators"],
+         desc="min / max of incomparable values become None instead of being compared as dates at midnight"),
+    dict(id="extreme-keyed-by-text", module=_V, old="		return pick(values, key=_at_midnight)", new="		return pick(values, key=str)", rules=["c.aggregators"]),
     dict(id="groups-sorted", module=_T, count=2, nth=0, old="		group_items = list(partition_index.items())", new="		group_items = sorted(partition_index.items(), key=repr)",
          rules=["a.partition"]),
-    dict(id="min-wired-to-max", module=_T, old="					return min(clean) if clean else None\n				\n				aggregate_col(col, min_func, \"min\")",
-         new="					return max(clean) if clean else None\n				\n				aggregate_col(col, min_func, \"min\")", rules=["c.aggregators"]),
+    dict(id="min-wired-to-max", module=_T, old="					return _extreme(clean, min) if clean else None\n				\n				aggregate_col(col, min_func, \"min\")",
+         new="					return _extreme(clean, max) if clean else None\n				\n				aggregate_col(col, min_func, \"min\")", rules=["c.aggregators"]),
     dict(id="sum-labelled-mean", module=_T, old="					lambda vals, d=d: sum(v for v in vals if v is not None),\n					\"sum\"",
          new="					lambda vals, d=d: sum(v for v in vals if v is not None),\n					\"mean\"", rules=["c.aggregators"]),
     dict(id="apply-gets-clean-values", module=_T, old="					vals = [d[i] for i in row_indices]\n					out.append(func(vals))",
@@ -97,7 +130,7 @@ MUTANTS = [
          new="		for row_idx in range(nrows - 1):\n			key = tuple(over_data[i][row_idx] for i in range(pk_len))", rules=["a.partition"]),
     dict(id="aggregate-col-reversed-rows", module=_T, old="				vals = [data[i] for i in row_indices]\n				\n				res = func(vals)",
          new="				vals = [data[i] for i in reversed(row_indices)]\n				\n				res = func(vals)", rules=["d.group-values"]),
-    dict(id="vector-max-truthy", module=_V, old="		non_none = [v for v in self._underlying if v is not None]\n		return max(non_none) if non_none else None",
+    dict(id="vector-max-truthy", module=_V, old="		non_none = [v for v in self._underlying if v is not None]\n		return _extreme(non_none, max) if non_none else None",
          new="		return max(filter(None, self._underlying), default=None)", rules=["e.vector-reductions"]),
     dict(id="resolve-via-sanitised-map", module=_T, old="		if isinstance(spec, str):\n			return self[spec]",
          new="		if isinstance(spec, str):\n			idx = self._current_column_map().get(_sanitize_user_name(spec))\n			if idx is not None:\n				return self._underlying[idx]\n			return self[spec]",
